@@ -33,6 +33,9 @@ pub enum MountApi {
 pub struct UniCfg {
     /// E universe: every openat2 is answered ENOSYS from the first call on
     pub no_openat2: bool,
+    /// with `no_openat2`: the refusal is EPERM, not ENOSYS (seccomp profiles that answer unknown
+    /// system calls with EPERM - older container runtimes)
+    pub openat2_eperm: bool,
     /// every renameat2 is answered ENOSYS (kernel before 3.15, seccomp profiles that do not know it)
     pub no_renameat2: bool,
     pub mount_api: MountApi,
@@ -49,7 +52,7 @@ pub struct UniCfg {
 
 impl Default for UniCfg {
     fn default() -> Self {
-        UniCfg { no_openat2: false, no_renameat2: false, mount_api: MountApi::Ok, statx_mntid: true, proc_opts: String::new(), unpriv: false, psym: None, workers: 1 }
+        UniCfg { no_openat2: false, openat2_eperm: false, no_renameat2: false, mount_api: MountApi::Ok, statx_mntid: true, proc_opts: String::new(), unpriv: false, psym: None, workers: 1 }
     }
 }
 
@@ -67,7 +70,7 @@ impl UniCfg {
     pub fn tag(&self) -> String {
         format!(
             "{}{}{}{}{}{}",
-            if self.no_openat2 { "E" } else { "K" },
+            if self.no_openat2 && self.openat2_eperm { "P" } else if self.no_openat2 { "E" } else { "K" },
             match self.mount_api {
                 MountApi::Ok => "",
                 MountApi::Enosys => "+nomountapi",
@@ -87,6 +90,7 @@ impl UniCfg {
     pub fn to_json(&self) -> Value {
         json!({
             "openat2": !self.no_openat2,
+            "openat2_refusal": if self.openat2_eperm { "EPERM" } else { "ENOSYS" },
             "renameat2": !self.no_renameat2,
             "mount_api": match self.mount_api { MountApi::Ok => "ok", MountApi::Enosys => "enosys", MountApi::Eperm => "eperm", MountApi::NoFsopen => "nofsopen" },
             "statx_mnt_id": self.statx_mntid,
@@ -99,6 +103,7 @@ impl UniCfg {
     pub fn from_json(v: &Value) -> UniCfg {
         UniCfg {
             no_openat2: !v["openat2"].as_bool().unwrap_or(true),
+            openat2_eperm: v["openat2_refusal"].as_str() == Some("EPERM"),
             no_renameat2: !v["renameat2"].as_bool().unwrap_or(true),
             mount_api: match v["mount_api"].as_str() {
                 Some("enosys") => MountApi::Enosys,
@@ -1370,7 +1375,7 @@ impl Universe {
             let mut injected = false;
             // persistent configuration refusals
             if self.cfg.no_openat2 && nr == libc::SYS_openat2 {
-                answer = Answer::Fail(libc::ENOSYS);
+                answer = Answer::Fail(if self.cfg.openat2_eperm { libc::EPERM } else { libc::ENOSYS });
             }
             if self.cfg.no_renameat2 && nr == libc::SYS_renameat2 && in_lib {
                 answer = Answer::Fail(libc::ENOSYS);
